@@ -6,6 +6,22 @@ From PR Require Import Base.Num Base.RNum Base.F64 Base.ListX Model.Boundary Pro
 Import ListNotations.
 Open Scope Z_scope.
 
+Lemma forallb2_in (f : nat -> nat -> bool) a la b lb :
+  forallb (fun n => forallb (fun m => f n m) (seq b lb)) (seq a la) = true ->
+  forall n m, In n (seq a la) -> In m (seq b lb) -> f n m = true.
+Proof.
+  intros H n m Hn Hm. rewrite forallb_forall in H. specialize (H n Hn).
+  rewrite forallb_forall in H. exact (H m Hm).
+Qed.
+
+Lemma forallb3_in {C} (f : nat -> nat -> C -> bool) a la b lb (lc : list C) :
+  forallb (fun n => forallb (fun m => forallb (fun c => f n m c) lc) (seq b lb)) (seq a la) = true ->
+  forall n m c, In n (seq a la) -> In m (seq b lb) -> In c lc -> f n m c = true.
+Proof.
+  intros H n m c Hn Hm Hc. rewrite forallb_forall in H. specialize (H n Hn).
+  rewrite forallb_forall in H. specialize (H m Hm). rewrite forallb_forall in H. exact (H c Hc).
+Qed.
+
 (* the specification of an index table, as a boolean: m entries in 0..n-1, first 0, last n-1, non-decreasing,
    strictly increasing exactly when m <= n *)
 Fixpoint nondecr (l : list Z) : bool :=
@@ -24,18 +40,18 @@ Definition f64_pair_ok (n m : nat) : bool :=
   table_spec_b (Z.of_nat n) m (linspace_idx F64 (Z.of_nat n) m)
   && table_spec_b (Z.of_nat n) m (rev (linspace_idx_desc F64 (Z.of_nat n) m)).
 Definition f64_table_ok (N : nat) : bool :=
-  forallb (fun n => forallb (fun m => f64_pair_ok n m) (seq 2 (N - 1))) (seq 1 N).
+  forallb (fun n => forallb (fun m => f64_pair_ok n m) (seq 2 N)) (seq 1 N).
 
 Lemma f64_table_48 : f64_table_ok 48 = true.
 Proof. vm_compute. reflexivity. Qed.
 
-Theorem f64_tables_spec (n m : nat) : (1 <= n <= 48)%nat -> (2 <= m <= 48)%nat ->
+Theorem f64_tables_spec (n m : nat) : (1 <= n <= 48)%nat -> (2 <= m <= 49)%nat ->
   table_spec_b (Z.of_nat n) m (linspace_idx F64 (Z.of_nat n) m) = true
   /\ table_spec_b (Z.of_nat n) m (rev (linspace_idx_desc F64 (Z.of_nat n) m)) = true.
 Proof.
-  intros Hn Hm. pose proof f64_table_48 as H. unfold f64_table_ok in H.
-  rewrite forallb_forall in H. specialize (H n ltac:(apply in_seq; lia)).
-  rewrite forallb_forall in H. specialize (H m ltac:(apply in_seq; lia)).
+  intros Hn Hm.
+  assert (H : f64_pair_ok n m = true).
+  { apply (forallb2_in f64_pair_ok 1 48 2 48 f64_table_48); apply in_seq; lia. }
   unfold f64_pair_ok in H. apply andb_true_iff in H. exact H.
 Qed.
 
@@ -65,20 +81,19 @@ Definition f64_ring_ok (h w : Z) (vps : option Z) : bool :=
   forallb (forallb (on_edge_b h w)) s && closed4_b s && closed4_b (reverse_boundaries s)
   && nodup_b (contour s) && nodup_b (contour (reverse_boundaries s)).
 Definition vps_range (V : nat) : list (option Z) := None :: map (fun v => Some (Z.of_nat v)) (seq 2 (V - 1)).
-Definition f64_rings_ok (N V : nat) : bool :=
-  forallb (fun h => forallb (fun w => forallb (fun vps => f64_ring_ok (Z.of_nat h) (Z.of_nat w) vps) (vps_range V))
-                            (seq 2 (N - 1))) (seq 2 (N - 1)).
+Definition f64_rings_ok (N : nat) (V : list (option Z)) : bool :=
+  forallb (fun h => forallb (fun w => forallb (fun vps => f64_ring_ok (Z.of_nat h) (Z.of_nat w) vps) V)
+                            (seq 2 N)) (seq 2 N).
 
-Lemma f64_rings_12_20 : f64_rings_ok 12 20 = true.
+Lemma f64_rings_12_20 : f64_rings_ok 11 (vps_range 20) = true.
 Proof. vm_compute. reflexivity. Qed.
 
 Theorem f64_ring_spec (h w : nat) (vps : option Z) : (2 <= h <= 12)%nat -> (2 <= w <= 12)%nat ->
   In vps (vps_range 20) -> f64_ring_ok (Z.of_nat h) (Z.of_nat w) vps = true.
 Proof.
-  intros Hh Hw Hv. pose proof f64_rings_12_20 as H. unfold f64_rings_ok in H.
-  rewrite forallb_forall in H. specialize (H h ltac:(apply in_seq; lia)).
-  rewrite forallb_forall in H. specialize (H w ltac:(apply in_seq; lia)).
-  rewrite forallb_forall in H. exact (H vps Hv).
+  intros Hh Hw Hv.
+  apply (forallb3_in (fun h w vps => f64_ring_ok (Z.of_nat h) (Z.of_nat w) vps) 2 11 2 11 (vps_range 20) f64_rings_12_20);
+    try (apply in_seq; lia). exact Hv.
 Qed.
 
 (* before the repair the same check fails: 4 x 3 geometry, vertices_per_side = 4 *)
